@@ -126,6 +126,11 @@ def check(ctx):
             return f.function.replace("CParser.", "") in WCm.STMT or f.function.replace("CParser.", "") in ("_starts_statement",)
         return any(("start:" + nt) in f.key or (":" + nt + "+") in f.key or (":" + nt + "/") in f.key or ("+" + nt + "/") in f.key or ("^" in f.key and (":" + nt + "^") in f.key) for nt in STMT_NTS)
     share.borrow(ctx, "C01", ("R-C01.3", "R-C01.4"), "R-C05.4", keep=stmt_level, count=40)
+    # ---- R-C05.6: pragma text verbatim ------------------------------------------------
+    ctx.rule("R-C05.6", "the text of a #pragma reaches the tree verbatim: the PPPRAGMASTR token is a slice of the input at its own offset (the Pragma node takes the token's value: R-C05.1)")
+    from . import c09
+    c09.token_spelling_sites(ctx, "R-C05.6")
+    ctx.require_instances("R-C05.6", 4)
 
     ctx.info["explanation"] = ("def-use wiring of every constructor site, return and append of the 19 statement-level productions and of the switch transform compared with the reviewed reference; "
                                "class-set agreement of the Case/Default tests; per-path append count of the regrouping loop")
